@@ -586,6 +586,59 @@ impl Corpus {
 }
 
 fn sibling(text: &str, rng: &mut Rng) -> String {
+    // half of the siblings are *revisions* of the grammar: the same names, one rule changed
+    // (a field or variant line dropped, or one terminal reference replaced by another). A cache
+    // keyed on names that survives from one call to the next is only wrong for such a pair.
+    if rng.chance(1, 2) {
+        let lines: Vec<&str> = text.split_inclusive('\n').collect();
+        let body: Vec<usize> = (0..lines.len())
+            .filter(|i| {
+                let l = lines[*i];
+                (l.starts_with("    ") || l.starts_with('\t'))
+                    && !l.trim().is_empty()
+                    && !l.trim_start().starts_with("//")
+                    && !l.trim_start().starts_with('$')
+            })
+            .collect();
+        let dollars: Vec<(usize, usize)> = {
+            // (start, end) of every `$Name`
+            let b = text.as_bytes();
+            let mut v = vec![];
+            let mut i = 0;
+            while i < b.len() {
+                if b[i] == b'$' {
+                    let mut j = i + 1;
+                    while j < b.len() && (b[j].is_ascii_alphanumeric() || b[j] == b'_') {
+                        j += 1;
+                    }
+                    if j > i + 1 {
+                        v.push((i, j));
+                    }
+                    i = j;
+                } else {
+                    i += 1;
+                }
+            }
+            v
+        };
+        if rng.chance(1, 2) && !body.is_empty() {
+            let drop = body[rng.below(body.len())];
+            let out: String = lines.iter().enumerate().filter(|(i, _)| *i != drop).map(|(_, l)| *l).collect();
+            if out != text {
+                return out;
+            }
+        } else if dollars.len() >= 2 {
+            let (a0, a1) = dollars[rng.below(dollars.len())];
+            let (b0, b1) = dollars[rng.below(dollars.len())];
+            if text[a0..a1] != text[b0..b1] {
+                let mut out = String::new();
+                out.push_str(&text[..a0]);
+                out.push_str(&text[b0..b1]);
+                out.push_str(&text[a1..]);
+                return out;
+            }
+        }
+    }
     let mut b: Vec<u8> = text.as_bytes().to_vec();
     let letters: Vec<usize> = (0..b.len()).filter(|i| b[*i].is_ascii_lowercase()).collect();
     let swaps: Vec<usize> = (0..b.len().saturating_sub(1))
@@ -911,7 +964,7 @@ fn main() {
                 for _ in 0..n_texts {
                     let id = if rng.chance(1, 4) { rng.below(nfixed) } else { nfixed + pool_base + rng.below(pool) };
                     ids.push(id);
-                    if id >= nfixed && ids.len() < 4 && rng.chance(1, 3) {
+                    if id >= nfixed && ids.len() < 4 && rng.chance(1, 2) {
                         // the text's sibling in the same run
                         ids.push(nfixed + ((id - nfixed) ^ 1));
                     }
